@@ -28,6 +28,8 @@ OBLIGATIONS.append(ob('C11.lexer.asc', 'verif_frag::lexwords::c11_lexer_asc', 'a
 OBLIGATIONS.append(ob('C11.between.case', BETW + 'c11_between_case', 'the BETWEEN guard of parse_cond accepts between / BETWEEN / Between and rejects other operator words', units=['cmp', 'between'], complete=False, bound='5 concrete spellings'))
 OBLIGATIONS.append(dict(id='C11.noparens', engine='V', verus_fn='Parser::parse_function', label='C11.noparens', complete=True, bound=None, units=[], harness='verus:Parser::parse_function', tier='quick',
     desc='real parse_function, every token vector: for a function that takes no arguments, when the next token is not an opening bracket the call is returned and the cursor is left on that token (so `curdate` and `curdate()` parse the same)'))
+OBLIGATIONS.append(dict(id='C11.brackets', engine='V', verus_fn='Parser::parse_paren', label='C11.brackets', complete=True, bound=None, units=[], harness='verus:Parser::parse_paren', tier='quick',
+    desc='real parse_paren, every token vector: a round-bracketed expression is accepted only when closed by a round bracket, a curly one only by a curly bracket; the bracketed expression is returned unchanged (both styles mean the same)'))
 CANARIES = [dict(harness=OPS + 'canary_ops_must_fail', units=['operators']), dict(harness=FIELD + 'canary_field_must_fail', units=['fieldclass']), dict(harness='verif_frag::lexwords::canary_lexwords_must_fail', units=['lexwords']), dict(harness='function::verif_kani_names::canary_fnnames_must_fail', units=['functionnames'])]
 ASSUMPTIONS = ['the alias tables are finite: "complete" means every documented spelling, in lower and upper case, is enumerated']
 NOT_COVERED = ['whitespace-split invariance, bracket styles, optional tokens (the real Lexer on the 3-word query `name from /x` does not finish in 300 s in CBMC: measured, removed)', 'root-option aliases: the real parse_root_options on one concrete word exhausts memory / 300 s in CBMC (measured) - only its panic freedom and termination are proved (Verus, under C10)']
